@@ -8,6 +8,7 @@ mod decblock;
 mod dtarget;
 mod io;
 mod rt_fixed;
+mod rt_kf;
 mod gen_types;
 mod rtypes;
 mod schema;
@@ -357,6 +358,7 @@ fn run_case(line: &str) -> String {
 				Err(e) => { let e: String = e.chars().rev().take(400).collect::<Vec<_>>().into_iter().rev().collect(); format!("(fail {})", esc(&e)) }
 			})
 		}
+		"rtkf" => Ok(rt_kf::run()),
 		"cw" => container::cmd_cw(args),
 		"cr" => container::cmd_cr(args),
 		"crt" => decblock::cmd_crt(args),
